@@ -85,7 +85,7 @@ def search(ctx, N):
 
         def fc(x, Q=Q):          # noqa
             return cst * (0.5 * np.dot(x, np.dot(Q, x)) + np.sum(x))
-        x = rng.uniform(-1, 1, size=dim)
+        x = rng.uniform(-1, 1, size=dim) if k % 2 else np.zeros(dim)       # at x = 0 the VALUE f(x) = 0 is real although f is complex-valued
         for method in ('central', 'central2', 'forward', 'backward'):
             for ns in (None, 1, 2, 3, 5, 8):
                 kw = {} if ns is None else {'step': nd.MinStepGenerator(base_step=1e-3, step_ratio=2.0, num_steps=ns)}
